@@ -2,6 +2,12 @@
 # tools/allchecks.sh <tier> <seed>...   — runs every registered check sequentially for each seed, prints one line per run
 TIER=$1; shift
 cd "$(dirname "$0")/.."
+# FROZEN=1 (only in a snapshot tree, e.g. under `vp run`): work against a private copy of /repo taken now, so
+# that seeded changes applied to /repo meanwhile cannot leak into this sweep
+if [ "${FROZEN:-0}" = 1 ] && [ "$(pwd)" != /verif ]; then
+  rsync -a --delete --exclude .git /repo/ "$(pwd)/.repo-frozen/"
+  sed -i "s|=> /repo\$|=> $(pwd)/.repo-frozen|" harness/go.mod
+fi
 for s in "$@"; do
   for i in 01 02 03 04 05 06 07 08 09 10 11 12 13 14 15 16 17 18 19 20; do
     out=$(VERIF_SEED=$s bin/check C$i $TIER 2>&1); code=$?
